@@ -328,6 +328,22 @@ func Names(r *rand.Rand, n int, o NameOpts) []string {
 	return out
 }
 
+// HashTwins are pairs of different names with the same value under a common non-cryptographic 32-bit
+// hash (FNV-1, FNV-1a, FNV-1a/64 folded, djb2 in both variants, sdbm, the times-31 hash, CRC-32, Adler-32,
+// MurmurHash3 with seed 0): a table keyed by such a hash alone takes them for one name.
+var HashTwins = [][2]string{
+	{"costarring", "liquid"}, {"declinate", "macallums"}, {"beef/pea 186", "jam/rice 420"}, // FNV-1a
+	{"yam/okra 59", "tofu/bun 12"},               // FNV-1
+	{"beef/pear 43", "okra/kale 108"},            // FNV-1a 64 folded to 32
+	{"kale/lime 18", "bun/okra 830"},             // djb2 (add)
+	{"yam/ham 75", "plum/kale 400"},              // djb2 (xor)
+	{"lime/fig 980", "pie/nut 1006"},             // sdbm
+	{"Aa", "BB"}, {"pie/rice 61", "dal/pea 300"}, // h*31+c
+	{"plumless", "buckeroo"}, {"bun/soy 669", "egg/tuna 802"}, // CRC-32
+	{"oat/fig 14", "oat/ham 50"},     // Adler-32
+	{"dal/beef 52", "lime/plum 100"}, // MurmurHash3 x86_32, seed 0
+}
+
 // PunctAll is the inner punctuation of the documented-format generators.
 const PunctAll = ".,;:'()&%+*=!?@_-\"#"
 
